@@ -6,16 +6,79 @@ only in reset --hard and behind fold's cleanliness check; cleanliness pre-checks
 history-level differential testing with dirty work trees (--keep and not), and a direct oracle
 comparing the content of every modified / untracked file before and after each command."""
 
+import itertools
 import os
 
-from . import histcheck
+from . import common, histcheck, repo
 
 LEVEL = "proof"
 PROFILES = [("DIRTY", 4), ("BASIC", 1)]
 ORACLES = ["dirty"]
 
 
+def dirty_probes(ctx, stg):
+    """commands outside the model that check out or reset: a locally modified (unstaged) file
+    and an untracked file must survive, whether the command succeeds or refuses"""
+    good = ("folded\n\n---\n\ndiff --git a/a.txt b/a.txt\n--- a/a.txt\n+++ b/a.txt\n@@ -1 +1 @@\n-one\n+ONE\n")
+    bad = good.replace("-one", "-not there")
+    cmds = []
+    for diff, opt in itertools.product((("good", good), ("bad", bad)), ([], ["--threeway"], ["--base", "HEAD~1"],
+                                                                         ["--base", "HEAD"])):
+        cmds.append(("fold " + diff[0] + " " + " ".join(opt), diff[1], ["fold"] + opt + ["PATCHFILE"]))
+    for extra in (["pop"], ["push"], ["goto", "p1"], ["float", "p1"], ["sink", "p2"], ["delete", "p2"], ["pick", "--fold", "p1"],
+                  ["rebase", "HEAD~2"], ["sync", "-B", "other", "p2"], ["undo"], ["reset", "refs/stacks/main~1"],
+                  ["squash", "-m", "sq", "p1", "p2"], ["clean"], ["spill"], ["refresh", "--spill"]):
+        cmds.append((" ".join(extra), good, extra))
+    failures = []
+    n = 0
+    for label, diff, argv in cmds:
+        with repo.Scratch("c10d") as r:
+            r.init_repo()
+            r.write("a.txt", "one\n")
+            r.write("notes.txt", "tracked notes\n")
+            r.git(["add", "-A"])
+            r.git(["commit", "-q", "-m", "files"])
+            r.stg(stg, ["init"])
+            r.stg(stg, ["new", "-m", "p1", "p1"])
+            r.write("b.txt", "b\n")
+            r.git(["add", "-A"])
+            r.stg(stg, ["refresh"])
+            r.stg(stg, ["new", "-m", "p2", "p2"])
+            r.write("c.txt", "c\n")
+            r.git(["add", "-A"])
+            r.stg(stg, ["refresh"])
+            r.stg(stg, ["branch", "--clone", "other"])
+            r.git(["checkout", "-q", "main"])
+            pf = os.path.join(r.home, "x.patch")
+            open(pf, "w").write(diff)
+            # the local changes: an unstaged edit of a tracked file no patch touches + an untracked file
+            r.write("notes.txt", "tracked notes\nPRECIOUS unstaged edit\n")
+            r.write("untracked.txt", "PRECIOUS untracked\n")
+            p = r.stg(stg, [pf if a == "PATCHFILE" else a for a in argv])
+            n += 1
+            probs = []
+            try:
+                if "PRECIOUS unstaged edit" not in r.read("notes.txt"):
+                    probs.append("the unstaged edit of notes.txt is gone")
+            except OSError:
+                probs.append("notes.txt is gone")
+            if not os.path.exists(os.path.join(r.path, "untracked.txt")) or \
+                    r.read("untracked.txt") != "PRECIOUS untracked\n":
+                probs.append("untracked.txt was removed or overwritten")
+            if probs:
+                failures.append({"obligation": "direct-oracle:C10:dirty-probe", "command": label, "argv": argv,
+                                 "exit": p.returncode, "problems": probs, "stderr": p.stderr[-300:]})
+    ctx.obligations += 1
+    if not failures:
+        ctx.discharged += 1
+    for f in failures[:4]:
+        common.violation(ctx, f, found_input=True, hint="probe-")
+    ctx.coverage["dirty_probes"] = n
+    ctx.coverage["evaluations"] = ctx.coverage.get("evaluations", 0) + n
+
+
 def run(ctx):
+    dirty_probes(ctx, common.build_stg())
     histcheck.run_property(ctx, PROFILES, ORACLES, n_quick=56, n_thorough=900, nsteps=32 if ctx.quick() else 45,
                            own_oracle="c10",
                            extra_trusted=["merge-recursive's refusal to overwrite locally modified files during the "
@@ -24,4 +87,10 @@ def run(ctx):
 
 
 def replay(ctx, path):
+    import json
+    doc = json.load(open(path))
+    if str(doc.get("obligation", "")).startswith("direct-oracle:C10:dirty-probe"):
+        dirty_probes(ctx, common.build_stg())
+        print("dirty probes: %d violation(s)" % len(ctx.violations))
+        return 1 if ctx.violations else 0
     return histcheck.replay_scenario(ctx, path, ORACLES)
